@@ -44,7 +44,7 @@ def bad_operator(inputs, value):
 
 
 def run(ctx: Ctx):
-  for r in (r1, r2, r3, r4, r8, r9, r10):
+  for r in (r1, r2, r3, r4, r8, r9, r10, r13):
     ctx.guard(r)
   from mlmverif.props import c18, c19
   ctx.include('R-C08-5', '"leaves the caller\'s input objects untouched": the'
@@ -123,6 +123,104 @@ def r10(ctx: Ctx):
   else:
     ctx.ok(rule, fi, f'records kept iff `{unparse(conds[0])}` (truthiness)', conds[0])
   ctx.floor(rule, 1)
+
+
+def r13(ctx: Ctx):
+  rule = 'R-C08-13'
+  ctx.rule(rule, '"sinks see every record once" and "invalid key combinations are rejected when'
+           ' the pipeline is built" — and VALID ones are not: an operator that forwards its input'
+           ' records unchanged (its iterate() yields the input element of the (output, input)'
+           ' pairs: filter, sink) adds no key to the build-time tracking of assigned keys. For'
+           ' each such operator class either its TreeTransform builder hands the tracked keys'
+           ' through (`output_keys=tuple(self.output_keys)`), or TreeTransform.output_keys skips'
+           ' its instances. Otherwise the operator\'s own default output key (SELF) enters the'
+           ' set: a later assign() is rejected ("Cannot mix SELF with other keys") and batch()'
+           ' routes a column that does not exist')
+  repo = ctx.repo
+  tf = repo.module('chainables.tree_fns')
+  passthrough = []
+  for ci in tf.classes.values():
+    it = ci.methods.get('iterate')
+    if it is None or ci.name == 'TreeFn':
+      continue
+    pairs = any(isinstance(c, ast.Call) and unparse(c.func).split('.')[-1] == 'processed_with_inputs'
+                for c in ast.walk(it.node))
+    for ge in ast.walk(it.node):
+      if isinstance(ge, ast.GeneratorExp) and isinstance(ge.elt, ast.Name) and len(ge.generators) == 1:
+        tgt = ge.generators[0].target
+        if isinstance(tgt, ast.Tuple) and len(tgt.elts) == 2 and isinstance(tgt.elts[1], ast.Name) and (
+            tgt.elts[1].id == ge.elt.id) and pairs:
+          passthrough.append(ci.name)
+      # loop form: for (out, elem) in pairs: ... yield elem
+      if isinstance(ge, ast.For) and isinstance(ge.target, ast.Tuple) and len(ge.target.elts) == 2 and isinstance(
+          ge.target.elts[1], ast.Name) and pairs and any(
+              isinstance(y, ast.Yield) and isinstance(y.value, ast.Name) and y.value.id == ge.target.elts[1].id
+              for y in ast.walk(ge)):
+        passthrough.append(ci.name)
+  passthrough = sorted(set(passthrough))
+  if len(passthrough) < 2:
+    raise AnalysisError(f'{rule}: expected the pass-through operators filter and sink, found {passthrough}')
+  tt = repo.cls('chainables.transform', 'TreeTransform')
+  ok_prop = ctx.repo.func('chainables.transform', 'TreeTransform.output_keys')
+  skipped = set()
+  for x in ast.walk(ok_prop.node):
+    if isinstance(x, ast.If) and any(isinstance(b, ast.Continue) for b in x.body):
+      for c in ast.walk(x.test):
+        if isinstance(c, ast.Call) and unparse(c.func) == 'isinstance' and len(c.args) == 2:
+          for y in ast.walk(c.args[1]):
+            if isinstance(y, ast.Attribute):
+              skipped.add(y.attr)
+            elif isinstance(y, ast.Name):
+              skipped.add(y.id)
+  n = 0
+  for cls in passthrough:
+    builders = [(m, c) for m in tt.methods.values() for c in ast.walk(m.node)
+                if isinstance(c, ast.Call) and unparse(c.func).split('.')[-1] == cls]
+    if not builders:
+      continue
+    for m, c in builders:
+      n += 1
+      ok_kw = kwarg(c, 'output_keys')
+      through = ok_kw is not None and any(is_self_attr(y, 'output_keys') for y in ast.walk(ok_kw))
+      if through or cls in skipped:
+        ctx.ok(rule, m, f'{cls}: ' + ('tracked keys handed through by the builder' if through else 'skipped by the key tracking'), c)
+      else:
+        ctx.fail(rule, m, f'TreeTransform.{m.name}: the pass-through operator {cls} adds no key to the tracking',
+                 f'`{unparse(c)[:60]}` builds a {cls} — an operator that forwards its records unchanged — with its'
+                 f' default output key, and TreeTransform.output_keys adds that key (SELF) to the keys assigned so'
+                 f' far: after .{m.name}(...) a valid assign() is rejected at build time and batch() routes a'
+                 ' column that does not exist', node=c)
+  # (b) operators that REPLACE the record (their iterate is TreeFn's own: outputs only —
+  # apply and select) reset the tracking: only their own keys exist afterwards
+  replacing = sorted(ci.name for ci in tf.classes.values() if 'iterate' not in ci.methods and any(
+      unparse(b_).split('.')[-1] == 'TreeFn' for b_ in ci.node.bases) and 'Aggregate' not in ci.name)
+  resets = set()
+  for x in ast.walk(ok_prop.node):
+    if isinstance(x, ast.If) and any(isinstance(b, ast.Assign) and isinstance(b.value, ast.Call) and unparse(
+        b.value.func) == 'set' and not b.value.args for b in x.body):
+      for c in ast.walk(x.test):
+        if isinstance(c, ast.Compare) and isinstance(c.ops[0], (ast.Is, ast.Eq)):
+          for y in ast.walk(c):
+            if isinstance(y, ast.Attribute) and y.attr[:1].isupper():
+              resets.add((y.attr, 'exact'))
+        if isinstance(c, ast.Call) and unparse(c.func) == 'isinstance' and len(c.args) == 2:
+          for y in ast.walk(c.args[1]):
+            if isinstance(y, ast.Attribute) and y.attr[:1].isupper():
+              resets.add((y.attr, 'isinstance'))
+  if not resets:
+    raise AnalysisError(f'{rule}: TreeTransform.output_keys no longer resets the tracking at a record-replacing operator')
+  for cls in ['TreeFn'] + replacing:
+    n += 1
+    covered = (cls, 'exact') in resets or (cls, 'isinstance') in resets
+    if covered:
+      ctx.ok(rule, ok_prop, f'output_keys resets at {cls}', ok_prop.node)
+    else:
+      ctx.fail(rule, ok_prop, f'TreeTransform.output_keys resets the tracked keys at the record-replacing operator {cls}',
+               f'{cls} replaces the record by its own outputs (it inherits TreeFn.iterate), but output_keys only resets'
+               f' the tracked set for {sorted(r_[0] for r_ in resets)}: keys assigned before a {cls.lower()}() are still'
+               ' believed to exist — batch() then routes a missing column (KeyError at run time) and a'
+               ' re-assignment of such a key is rejected as duplicate', node=ok_prop.node)
+  ctx.floor(rule, 4, n)
 
 
 
@@ -570,6 +668,15 @@ from mlmverif.selfcheck import B, OK  # noqa: E402
 _F = 'chainables/tree_fns.py'
 _T = 'chainables/transform.py'
 VARIANTS = [
+    B('revert-sink-adds-no-tracked-key', 'chainables/transform.py',
+      '      if isinstance(fn, tree_fns.Sink):\n        # A sink forwards the records unchanged, it adds no key.\n        continue\n',
+      '', 'R-C08-13'),
+    B('revert-select-resets-tracked-keys', 'chainables/transform.py',
+      '      if type(fn) is tree_fns.TreeFn or isinstance(fn, tree_fns.Select):  # pylint: disable=unidiomatic-typecheck',
+      '      if type(fn) is tree_fns.TreeFn:  # pylint: disable=unidiomatic-typecheck', 'R-C08-13'),
+    B('filter-builder-drops-tracked-keys', 'chainables/transform.py',
+      '        fn=fn, input_keys=input_keys, output_keys=tuple(self.output_keys)\n',
+      '        fn=fn, input_keys=input_keys\n', 'R-C08-13'),
     B('filter-keeps-only-literal-true', 'chainables/tree_fns.py',
       '    return (elem for (value,), elem in it_ if value)', '    return (elem for (value,), elem in it_ if value == True)', 'R-C08-10'),
     B('filter-inverted', 'chainables/tree_fns.py',
@@ -581,12 +688,12 @@ VARIANTS = [
       '    input_keys, output_keys = self.input_keys, self.output_keys\n    if self.fn is None:\n      if input_argkeys:\n        raise ValueError(f\'Select Op cannot have kwargs, got {input_keys=}\')\n',
       'R-C08-9'),
     B('output-keys-from-dict-values', _T,
-      '      non_dict_keys, dict_keys = mit.partition(_is_dict, fn.output_keys)\n      # Aggregate and Assign/Apply Ops are separated into different transforms.\n      # The base TreeFn means this is an Apply Op.\n      if type(fn) is tree_fns.TreeFn:  # pylint: disable=unidiomatic-typecheck\n        result = set()\n      result.update(itertools.chain(non_dict_keys, *dict_keys))',
-      '      if type(fn) is tree_fns.TreeFn:  # pylint: disable=unidiomatic-typecheck\n        result = set()\n      for key in fn.output_keys:\n        result.update(key.values() if _is_dict(key) else (key,))',
+      '        result = set()\n      result.update(itertools.chain(non_dict_keys, *dict_keys))\n    return result\n\n  @property\n  def agg_output_keys',
+      '        result = set()\n      for key in fn.output_keys:\n        result.update(key.values() if _is_dict(key) else (key,))\n    return result\n\n  @property\n  def agg_output_keys',
       'R-C08-8'),
     OK('output-keys-explicit-loop', _T,
-       '      non_dict_keys, dict_keys = mit.partition(_is_dict, fn.output_keys)\n      # Aggregate and Assign/Apply Ops are separated into different transforms.\n      # The base TreeFn means this is an Apply Op.\n      if type(fn) is tree_fns.TreeFn:  # pylint: disable=unidiomatic-typecheck\n        result = set()\n      result.update(itertools.chain(non_dict_keys, *dict_keys))',
-       '      if type(fn) is tree_fns.TreeFn:  # pylint: disable=unidiomatic-typecheck\n        result = set()\n      for key in fn.output_keys:\n        result.update(key if _is_dict(key) else (key,))'),
+       '        result = set()\n      result.update(itertools.chain(non_dict_keys, *dict_keys))\n    return result\n\n  @property\n  def agg_output_keys',
+       '        result = set()\n      for key in fn.output_keys:\n        result.update(key if _is_dict(key) else (key,))\n    return result\n\n  @property\n  def agg_output_keys'),
     B('check-assign-keys-from-items', _T,
       '    new_keys = set(itertools.chain(non_dict_keys, *dict_keys))',
       '    new_keys = set(non_dict_keys) | {v for d in dict_keys for v in d.values()}', 'R-C08-8'),
